@@ -282,6 +282,14 @@ func (bc *BlockChain) SetHead(head uint64) error {
 
 	// Rewind the header chain, deleting all block bodies until then
 	delFn := func(hash common.Hash, num uint64) {
+		// The rewound block leaves the canonical chain: drop the lookup
+		// entries of its transactions, otherwise they resolve again as soon
+		// as the same block is stored once more as a side block.
+		if body := GetBodyNoVersion(bc.db, hash, num); body != nil {
+			for _, tx := range body.Transactions {
+				DeleteTxLookupEntry(bc.db, tx.Hash())
+			}
+		}
 		DeleteBody(bc.db, hash, num)
 	}
 	bc.hc.SetHead(head, delFn)
